@@ -64,8 +64,8 @@ func c04Header(fs *Facts, f *File) {
 		}
 	}
 	where := c01Types + ":" + itoa(f.Line(fd))
-	fs.Tri("checksMagic", TriOf(magic), where)
-	fs.Tri("checksVersion", TriOf(ver), where)
+	fs.Tri("checksMagic", Tri3(magic, !f.Contains(fd.Body, "MagicBytes")), where)
+	fs.Tri("checksVersion", Tri3(ver, !f.Contains(fd.Body, "ErrUnsupportedVer")), where)
 }
 
 func c04Entry(fs *Facts, f *File) {
@@ -94,7 +94,7 @@ func c04Entry(fs *Facts, f *File) {
 	}
 	where := c01Types + ":" + itoa(f.Line(fd))
 	fs.OptNat("entryBoundsChecks", n, true, where)
-	fs.Tri("rejectsEmptyKeyOnRead", TriOf(empty), where)
+	fs.Tri("rejectsEmptyKeyOnRead", Tri3(empty, !f.Contains(fd.Body, "ErrEmptyKey")), where)
 }
 
 func c04ParseBlock(fs *Facts, f *File, ty *File) {
@@ -126,8 +126,15 @@ func c04ParseBlock(fs *Facts, f *File, ty *File) {
 	dlenSeen := false
 	var loop token.Pos
 	ast.Inspect(fd.Body, func(x ast.Node) bool {
-		if fr, ok := x.(*ast.ForStmt); ok && loop == token.NoPos {
-			loop = fr.End()
+		switch fr := x.(type) { // the entry loop: classic three-clause form or `for range header.EntryCount`
+		case *ast.ForStmt:
+			if loop == token.NoPos {
+				loop = fr.End()
+			}
+		case *ast.RangeStmt:
+			if loop == token.NoPos && strings.Contains(f.Str(fr.X), "EntryCount") {
+				loop = fr.End()
+			}
 		}
 		return true
 	})
@@ -160,15 +167,16 @@ func c04ParseBlock(fs *Facts, f *File, ty *File) {
 		}
 	}
 	where := c01Block + ":" + itoa(f.Line(fd))
-	fs.Tri("validatesCrc", TriOf(crc), where)
-	fs.Tri("crcBeforeDecompress", TriOf(crcBefore), where)
-	fs.Tri("validatesULen", TriOf(ulen), where)
+	fs.Tri("validatesCrc", Tri3(crc, !f.Contains(fd.Body, "Checksum")), where)
+	fs.Tri("crcBeforeDecompress", ShapeTri(crcBefore), where)
+	fs.Tri("validatesULen", Tri3(ulen, !f.Contains(fd.Body, "UncompressedSize")), where)
 	if dlenSeen && !dlen {
 		fs.Tri("boundsDecodedLen", Unknown, where) // a guard of another shape: not the one alloc_bounded is proved for
 	} else {
-		fs.Tri("boundsDecodedLen", TriOf(dlen), where)
+		fs.Tri("boundsDecodedLen", TriOf(dlen), where) // no DecodedLen guard at all: positively absent
 	}
-	fs.Tri("parseConsumesAll", TriOf(all), where)
+	// absent = nothing after the entry loop compares the consumed offset with the payload length
+	fs.Tri("parseConsumesAll", Tri3(all, !strings.Contains(strings.ReplaceAll(f.Str(fd.Body), " ", ""), "!=len(uncompressed)")), where)
 }
 
 func c04ReadNextBlock(fs *Facts, f *File) {
@@ -188,8 +196,15 @@ func c04ReadNextBlock(fs *Facts, f *File) {
 	short, bound := false, false
 	for _, is := range c04Ifs(f, fd.Body) {
 		c := c04Cond(f, is)
-		if c == "n<BlockHeaderSize" && c04RetMentions(f, is, "io.EOF") {
-			short = true
+		if strings.HasSuffix(c, "<BlockHeaderSize") && c04RetMentions(f, is, "io.EOF") {
+			// the compared variable must be the byte count returned by fr.file.Read(headerBuf)
+			v := strings.TrimSuffix(c, "<BlockHeaderSize")
+			for _, st := range f.Stmts(fd.Body) {
+				if as, ok := st.(*ast.AssignStmt); ok && len(as.Lhs) == 2 && len(as.Rhs) == 1 && f.Str(as.Lhs[0]) == v &&
+					strings.HasPrefix(strings.ReplaceAll(f.Str(as.Rhs[0]), " ", ""), "fr.file.Read(") {
+					short = true
+				}
+			}
 		}
 		be, isCmp := is.Cond.(*ast.BinaryExpr)
 		if mk != nil && isCmp && be.Op == token.GTR && is.Pos() < mk.Pos() && strings.Contains(f.Str(be.X), "blockHeader.CompressedSize") &&
@@ -201,7 +216,7 @@ func c04ReadNextBlock(fs *Facts, f *File) {
 		}
 	}
 	where := c01Reader + ":" + itoa(f.Line(fd))
-	fs.Tri("shortHeaderIsEOF", TriOf(short), where)
+	fs.Tri("shortHeaderIsEOF", ShapeTri(short), where)
 	// ---- what a cut-short payload means, at both sites
 	// site 1: the size pre-check (if present): its body either returns io.EOF unconditionally, or
 	//         io.EOF only for remaining <= 0 and io.ErrUnexpectedEOF otherwise
